@@ -184,11 +184,11 @@ def rust_cont(c, ix):
 
 def lean_cont(c, ix):
     if c.kind == "vec":
-        return "(VecIdx %s %d)" % (lean_index(ix), layout(ix)[0])
+        return "(Capd (VecIdx %s %d))" % (lean_index(ix), layout(ix)[0])
     if c.kind == "opt":
-        return "IndexOptimized"
+        return "(Capd IndexOptimized)"
     if c.kind == "list":
-        return "IndexList"
+        return "(Capd IndexList)"
     raise ValueError(c.kind)
 
 
@@ -238,7 +238,7 @@ def lean_type(t):
     if k == "string":
         return "(StringRegion %s)" % lean_type(a[0])
     if k == "huffman":
-        return "Huff.Container"
+        return "HuffU8" if a[0].kind == "u8" else "Huff.Container"
     if k == "codec":
         return "Codec.Region"
     if k == "option":
@@ -304,7 +304,7 @@ def shape(t):
         return ("nat", PRIMS[p][3])
     if k in ("owned", "huffman"):
         p = a[0].kind
-        if p == "u8" and k == "owned":
+        if p == "u8":
             return ("bytes", False)
         if p == "unit":
             return ("list", ("unit",))
